@@ -82,6 +82,8 @@ pub struct LReg {
     pub structs: HashMap<String, LStruct>,
     pub enums: HashMap<String, Vec<(String, Vec<LTy>)>>,
     pub fns: HashMap<String, LFnSig>,
+    /// `lkind` items: unit structures that implement `AesKind` (type arguments of the key stream)
+    pub kinds: HashSet<String>,
 }
 
 /// external types of the vocabulary: Rust name → Lean type
@@ -162,7 +164,6 @@ fn ext_free(f: &str) -> Option<(&'static str, LTy, bool)> {
     Some(match f {
         "constant_time_eq" => ("Rs.L.bytesEq", LTy::Bool, false),
         // aes.rs: `Box::new(AesCtrZipKeyStream::<AesNNN>::new(key)) as Box<dyn AesCipher>` by mode
-        "cipher_from_mode" => ("Rs.AesFromMode.cipher_from_mode", LTy::Ext("Rs.AesDyn.Cipher".into()), true),
         _ => return None,
     })
 }
@@ -306,7 +307,15 @@ fn impl_tparams(g: &Generics) -> R<Vec<(String, Vec<String>)>> {
                 WherePredicate::Type(pt) => {
                     let n = match &pt.bounded_ty {
                         Type::Path(p) if p.path.segments.len() == 1 => path_last(&p.path),
-                        // bounds on associated types (`C::Cipher: BlockEncrypt`) carry no vocabulary
+                        // `C::Cipher: KeyInit`: the cipher of `C` can be keyed, its key length is that of the kind `C`
+                        Type::Path(p) if p.path.segments.len() == 2 && p.path.segments[1].ident == "Cipher" && pt.bounds.iter().any(|b| matches!(b, TypeParamBound::Trait(tb) if path_last(&tb.path) == "KeyInit")) => {
+                            let c = p.path.segments[0].ident.to_string();
+                            if let Some(e) = out.iter_mut().find(|(k, _)| *k == c) {
+                                e.1.push("Cipher:KeyInit".into());
+                            }
+                            continue;
+                        }
+                        // other bounds on associated types (`C::Cipher: BlockEncrypt`) carry no vocabulary
                         _ => continue,
                     };
                     for b in &pt.bounds {
@@ -470,6 +479,9 @@ pub fn collect(files: &[(String, Vec<(String, String)>)], asts: &BTreeMap<String
                 "lenum" => {
                     lreg.enums.insert(n.clone(), vec![]);
                 }
+                "lkind" => {
+                    lreg.kinds.insert(n.clone());
+                }
                 _ => {}
             }
         }
@@ -573,6 +585,7 @@ pub fn emit(kind: &str, name: &str, all: &[&Item], reg: &Registry, lreg: &LReg, 
             Err("not found".into())
         }
         "lvar" => Ok((format!("variable [{name}]\n"), String::from("-"), 0, 0)),
+        "lkind" => emit_kind(name, all),
         "lenum" => {
             for it in all {
                 if let Item::Enum(e) = it {
@@ -612,6 +625,40 @@ pub fn emit(kind: &str, name: &str, all: &[&Item], reg: &Registry, lreg: &LReg, 
         }
         k => Err(format!("unknown item kind {k}")),
     }
+}
+
+/// `lkind Name`: `pub struct Name;` with `impl AesKind for Name { type Key = …; type Cipher = aes::X; }` — a type
+/// without values and the instance that says which cipher of the `aes` crate it stands for (its key size is vocabulary)
+fn emit_kind(name: &str, all: &[&Item]) -> R<(String, String, usize, usize)> {
+    let st = all.iter().find_map(|it| match it {
+        Item::Struct(s) if s.ident == name && cfg_on(&s.attrs) && matches!(s.fields, Fields::Unit) => Some(s),
+        _ => None,
+    }).ok_or("unit structure not found")?;
+    for it in all {
+        if let Item::Impl(im) = it {
+            let is_kind = matches!(&im.trait_, Some((_, p, _)) if path_last(p) == "AesKind");
+            let for_name = matches!(&*im.self_ty, Type::Path(p) if path_last(&p.path) == name);
+            if !is_kind || !for_name || !cfg_on(&im.attrs) {
+                continue;
+            }
+            for ii in &im.items {
+                if let ImplItem::Type(t) = ii {
+                    if t.ident == "Cipher" {
+                        let cipher = match &t.ty {
+                            Type::Path(p) if p.path.segments.len() == 2 && p.path.segments[0].ident == "aes" => path_last(&p.path),
+                            _ => return Err("`type Cipher` that is not a cipher of the aes crate".into()),
+                        };
+                        if !["Aes128", "Aes192", "Aes256"].contains(&cipher.as_str()) {
+                            return Err(format!("cipher aes::{cipher}"));
+                        }
+                        let text = format!("inductive Gen.{name} where\n  | mk\n\ninstance : Rs.AesKind Gen.{name} := ⟨Rs.AesCrate.{cipher}.keySize⟩\n");
+                        return Ok((text, tokens_hash(&quote::quote!(#st #im)), st.span().start().line, im.span().end().line));
+                    }
+                }
+            }
+        }
+    }
+    Err("impl AesKind not found".into())
 }
 
 include!("t6l_tr.rs");
